@@ -440,8 +440,13 @@ func (e *Exec) scenarioShape(path string, t types.Type, a string) ([]altFn, bool
 				delete(s.Fresh, ar.Cell)
 				ms = SliceV{Arr: ar, Len_: len(mappings), Cap: len(mappings)}
 			}
-			cfg := mkStruct(cfgT, map[string]Val{"SchemaMappings": ms, "DefaultOutputName": lit("default.go"), "DefaultPackageName": lit("defpkg"), "Warner": Opaque{Tag: "config.Warner", Typ: strFn}})
-			gr := s.alloc(mkStruct(p.Elem(), map[string]Val{"config": cfg, "warner": Opaque{Tag: "warner", Typ: strFn}, "outputs": MapV{Cell: mr.Cell}}))
+			cfg := mkStruct(cfgT, map[string]Val{"SchemaMappings": ms, "DefaultOutputName": lit("default.go"), "DefaultPackageName": lit("defpkg"), "Warner": Opaque{Tag: "config.Warner", Typ: strFn},
+				"StructNameFromTitle": mkVar("g.config.StructNameFromTitle", SBool)})
+			caserT := w.namedType("internal/x/text", "Caser")
+			cr := s.alloc(zeroVal(caserT))
+			delete(s.Fresh, cr.Cell)
+			s.CellTypes[cr.Cell] = caserT
+			gr := s.alloc(mkStruct(p.Elem(), map[string]Val{"config": cfg, "warner": Opaque{Tag: "warner", Typ: strFn}, "outputs": MapV{Cell: mr.Cell}, "caser": cr}))
 			delete(s.Fresh, gr.Cell)
 			s.CellTypes[gr.Cell] = p.Elem()
 			return gr
